@@ -74,13 +74,38 @@ fn c04_alias_prefix() -> Result<(), String> {
     Ok(())
 }
 
+/// C09 for Mutex / RwLock under contention: the estimate is taken while another thread holds the lock for a moment; it must
+/// be the exact figure (the estimator waits for the lock), not a fallback value.
+fn c09_contended_lock() -> Result<(), String> {
+    use std::sync::{Arc, Mutex, RwLock, mpsc};
+    let m = Arc::new(Mutex::new(String::with_capacity(100)));
+    let expect = m.lock().unwrap().capacity();
+    let (tx, rx) = mpsc::channel();
+    let m2 = m.clone();
+    let h = std::thread::spawn(move || { let g = m2.lock().unwrap(); tx.send(()).unwrap(); std::thread::sleep(std::time::Duration::from_millis(120)); drop(g); });
+    rx.recv().unwrap();
+    let got = m.heap_size();
+    h.join().unwrap();
+    if got != expect { return Err(format!("Mutex<String> held by another thread: heap_size {} instead of {}", got, expect)); }
+    let l = Arc::new(RwLock::new(vec![0u64; 17]));
+    let expect = l.read().unwrap().capacity() * 8;
+    let (tx, rx) = mpsc::channel();
+    let l2 = l.clone();
+    let h = std::thread::spawn(move || { let g = l2.write().unwrap(); tx.send(()).unwrap(); std::thread::sleep(std::time::Duration::from_millis(120)); drop(g); });
+    rx.recv().unwrap();
+    let got = l.heap_size();
+    h.join().unwrap();
+    if got != expect { return Err(format!("RwLock<Vec<u64>> write-locked by another thread: heap_size {} instead of {}", got, expect)); }
+    Ok(())
+}
+
 fn main() {
     std::panic::set_hook(Box::new(|_| {}));
     let which = std::env::args().nth(1);
     let all: Vec<(&str, fn() -> Result<(), String>)> = vec![
         ("c08_zero_len_arrays", c08_zero_len_arrays), ("c09_pathbuf_capacity", c09_pathbuf_capacity),
         ("c13_shrink_raises", c13_shrink_raises), ("c16_hash_panic_in_realloc", c16_hash_panic_in_realloc),
-        ("c04_alias_prefix", c04_alias_prefix)];
+        ("c04_alias_prefix", c04_alias_prefix), ("c09_contended_lock", c09_contended_lock)];
     for (name, f) in all {
         if let Some(w) = &which { if w != name { continue; } }
         match f() { Ok(()) => println!("DIRECTED {} ok", name), Err(e) => println!("DIRECTED {} FAIL {}", name, e) }
